@@ -530,12 +530,60 @@ def r10h(ctx, rep, rule="R10h"):
                                      "emits for the character x, is decoded as an empty hex escape and rejected", [t["loc"]])
 
 
+def r10j(ctx, rep, rule="R10j"):
+    facts = ctx["facts"]
+    rep.rule(rule, "the \\x<hex>; decoder rejects no particular code point: in parse_string the value accumulated from the hex "
+             "digits (the u32 fed by checked_mul / checked_add) is judged only by the overflow checks and by char::from_u32; "
+             "no branch compares it with a constant. The writer emits every control character — U+0000 included — as a hex "
+             "escape, so a test such as `value == 0` (used as a stand-in for 'no digits seen') makes that character "
+             "unreadable.")
+    f = need(rep, rule, facts, "marwood::parse::parse_string")
+    if f is None:
+        return
+    acc = set()
+    for l, ty in enumerate(f.locals):
+        if ty != "u32" or l not in f.names:
+            continue
+        for d in f.defs().get(l, []):
+            if d[2] == "partial":
+                continue
+            src = d[3]["rv"].get("a") if d[2] == "assign" and d[3]["rv"]["k"] == "use" else None
+            o = f.origin(src) if src is not None else (("call", d[3]) if d[2] == "call" else None)
+            for _ in range(4):
+                if not (o and o[0] == "call"):
+                    break
+                if re.search(r"checked_(mul|add)$", callee(o[1]) or ""):
+                    acc.add(l)
+                    break
+                o = f.origin(o[1]["args"][0]) if o[1]["args"] else None
+    if not acc:
+        rep.anchor_lost(rule, "no u32 accumulator fed by checked_mul / checked_add in parse_string")
+        return
+    bad = []
+    for bb, j, st in f.stmts():
+        rv = st["rv"]
+        if rv["k"] == "bin" and rv["op"] in ("Eq", "Ne", "Lt", "Le", "Gt", "Ge"):
+            for x, y in ((rv["a"], rv["b"]), (rv["b"], rv["a"])):
+                ox = f.origin(x)
+                if ox[0] == "local" and ox[1] in acc and not ox[2] and op_const(y) is not None:
+                    bad.append((st, op_const(y)))
+    key = "%s|parse_string|accumulator-compared" % rule
+    if bad:
+        rep.fail(rule, key, "parse_string compares the code point accumulated by a \\x escape with the constant %s: the decoder treats "
+                 "that particular value specially, so the character with that scalar value — which the writer emits as a hex "
+                 "escape — no longer reads back" % bad[0][1].get("text", bad[0][1].get("int")), [bad[0][0]["loc"]])
+    else:
+        rep.ok(rule, key, "the accumulated code point (%s) is judged only by checked arithmetic and char::from_u32" % ", ".join(
+            sorted(f.local_name(l) for l in acc)), [f.span])
+
+
 def run(ctx, rep):
     r10a(ctx, rep)
     r10e(ctx, rep)
     r10b(ctx, rep)
     r10d(ctx, rep)
     r10h(ctx, rep)
+    r10j(ctx, rep)
     from . import C11
     C11.r11g(ctx, rep, rule="R10i")
     rep.rules["R10i"] = "what the printer writes can be sliced back out of the text: " + rep.rules["R10i"]
